@@ -3,7 +3,7 @@ From Coq Require Import List NArith ZArith Bool Lia Arith.
 From Coq Require Import ZifyBool ZifyNat ZifyN.
 From LTV Require Import Common.Bytes.
 From LTV.C14 Require Import ParamsGen.
-From LTV.C07 Require Import Model.
+From LTV.C07 Require Import Model ProofsSafe.
 From LTV.C14 Require Import Model.
 Import ListNotations.
 Local Open Scope N_scope.
@@ -453,6 +453,21 @@ Proof.
         -- exact (process_scrape_no_fault _ _ _ H).
         -- exact (process_success_no_fault _ _ _ H).
   - cbn [snd]. intro H; exfalso; exact (http_failed_not_fault _ _ H).
+Qed.
+
+(* with C07's decode_stream_total: the HTTP reply path never reads out of range, for every body *)
+Lemma http_never_faults : forall ih ev body ts, snd (http_receive_done ih ev body ts) <> EvFault.
+Proof.
+  intros ih ev body ts H. destruct (decode_stream_total body) as (Hf & Ho & _).
+  destruct (http_fault_only_from_decoder ih ev body ts H); contradiction.
+Qed.
+
+Lemma http_malformed_fails_total : forall ih ev body ts,
+  (forall m fl rest, decode_stream body <> Ok (VMap m, fl) rest) ->
+  fst (http_receive_done ih ev body ts) = ts /\ is_failure (snd (http_receive_done ih ev body ts)).
+Proof.
+  intros ih ev body ts Hm. destruct (decode_stream_total body) as (Hf & Ho & _).
+  apply http_malformed_fails; [exact Hm|split; assumption].
 Qed.
 
 (* ------------------------------------------------------------------ UDP *)
